@@ -12,6 +12,7 @@ Reverse  : an independent signer (this file; `cryptography` primitives + the RFC
 The independent encoder / signer in the first part of this file is also imported by the other bounded components
 (sig_soundness, hashed_area, fingerprints, packets).
 """
+import copy
 import hashlib
 import os
 import multiprocessing
@@ -552,6 +553,7 @@ def wellformed(t, body, halg):
 def make_signature(ks, case):
     """run the PGPy API call of a case; returns (PGPSignature, signing component: 'prim'|'sub'|'other')"""
     op, kw = case['op'], materialise(case['opts'], ks)
+    case['_kw'] = kw
     sname = case['subject']
     _, subj, _ = subject(ks, sname)
     if op == 'sign':
@@ -575,6 +577,27 @@ def make_signature(ks, case):
     if op == 'bind':
         return ks.k.bind(subj, **kw), 'prim'
     raise ValueError(op)
+
+
+def disturb_options(kw):
+    """change, in place, every mutable collection that was passed to the signing call; returns the option names"""
+    names = []
+    for n, v in kw.items():
+        if isinstance(v, list):
+            v.reverse()
+            v.append(v[0] if v else 0)
+            del v[:1]
+            names.append(n)
+        elif isinstance(v, set):
+            v.clear()
+            names.append(n)
+        elif isinstance(v, dict):
+            for k in list(v):
+                if isinstance(v[k], bytearray):
+                    v[k] += b'!'
+            v['late@x'] = 'added afterwards'
+            names.append(n)
+    return names
 
 
 def expected_type(case):
@@ -871,9 +894,22 @@ def run_forward(args):
                 # PGPy declining to sign (e.g. a hash its backend lacks) is outside "every signature PGPy creates"
                 res.append({'case': _pub(case), 'declined': '%s: %s' % (type(ex).__name__, str(ex)[:100])})
                 continue
+            # the caller goes on using the collections it passed as options (the next user id gets other preferences ...): what is
+            # exported afterwards is still the signature that was made. And a COPY of the signature (what key.pubkey, copy.copy(key) and
+            # copy.copy(message) export) is the same packet, octet for octet.
+            raw0 = bytes(sig)
+            changed = disturb_options(case.pop('_kw', {}))
             raw = check_signature(ks, case, sig, who, out)
+            if raw != raw0:
+                out['fail'].insert(0, 'the export changed after the caller changed the collections it had passed as options (%s)' % ', '.join(changed))
+            cp = bytes(copy.copy(sig))
+            if cp != raw0:
+                d = [i for i in range(min(len(cp), len(raw0))) if cp[i] != raw0[i]]
+                out['fail'].append('copy.copy(signature) exports other octets than the signature (lengths %d / %d, first difference at octet %s)'
+                                   % (len(cp), len(raw0), d[0] if d else 'end'))
         except Exception as ex:
             out['fail'].append('harness error: %s: %s' % (type(ex).__name__, ex))
+        case.pop('_kw', None)
         res.append({'case': _pub(case), 'fail': out['fail'], 'sha': hashlib.sha1(raw or b'').hexdigest(), 'sigtype': out.get('sigtype'),
                     'halg': out.get('halg'), 'embedded': out.get('embedded', 0), 'raw': raw.hex() if (raw and out['fail']) else None})
     return res
